@@ -408,16 +408,31 @@ func init() {
 		if e.IntMode {
 			panic(unsupported{"big.Int.Lsh by symbolic amount in int mode"})
 		}
-		// symbolic shift: the shift amount must provably keep the value inside W
+		// symbolic shift: find a bound on the amount that provably keeps the value inside W
 		limit := e.BigW - 1 - x.bits
 		if limit < 0 {
 			limit = 0
 		}
-		over := e.tt.BvCmp(OBvUlt, e.tt.BVu(64, uint64(limit)), n)
-		if e.live() && e.feasible(over) {
+		cands := []int{63, 255, limit}
+		bi := e.logged(func() int {
+			for i, c := range cands {
+				if c > limit {
+					continue
+				}
+				if !e.feasible(e.tt.BvCmp(OBvUlt, e.tt.BVu(64, uint64(c)), n)) {
+					return i
+				}
+			}
+			return len(cands)
+		})
+		bound := -1
+		if bi < len(cands) {
+			bound = cands[bi]
+		}
+		if bound < 0 {
 			panic(engineError{fmt.Sprintf("big.Int.Lsh: shift amount may exceed %d, leaving the %d-bit encoding", limit, e.BigW)})
 		}
-		return e.bigSet(a[0], bigV{t: e.tt.BvBin(OBvShl, x.t, e.tt.ZExt(e.BigW-64, n)), bits: e.BigW - 1, nn: x.nn})
+		return e.bigSet(a[0], bigV{t: e.tt.BvBin(OBvShl, x.t, e.tt.ZExt(e.BigW-64, n)), bits: x.bits + bound, nn: x.nn})
 	})
 	reg("Rsh", func(e *Engine, fr *frame, a []Value) Value {
 		x := e.bigGet(a[1], "Rsh")
@@ -471,6 +486,51 @@ func init() {
 	reg("Bytes", func(e *Engine, fr *frame, a []Value) Value {
 		x := e.bigGet(a[0], "Bytes")
 		return e.bigBytes(x)
+	})
+	reg("Bits", func(e *Engine, fr *frame, a []Value) Value {
+		x := e.bigGet(a[0], "Bits")
+		abs := e.bAbs(x)
+		wordT := types.Typ[types.Uint]
+		if abs.IsConst() {
+			ws := abs.c.Bits()
+			out := make([]Value, len(ws))
+			for i, w := range ws {
+				out[i] = e.intConst(wordT, new(big.Int).SetUint64(uint64(w)))
+			}
+			return out
+		}
+		maxW := (x.bits + 63) / 64
+		if e.IntMode && x.bits == 0 {
+			maxW = 8
+		}
+		var conds []*Term
+		for k := 0; k <= maxW; k++ {
+			var c *Term
+			hi := e.bigConst(pow2(64 * k))
+			if !e.IntMode && 64*k >= e.BigW-1 {
+				c = e.tt.Bool(true)
+			} else {
+				c = e.bLt(abs, hi)
+			}
+			if k > 0 {
+				c = e.tt.And(c, e.bLe(e.bigConst(pow2(64*(k-1))), abs))
+			}
+			conds = append(conds, c)
+		}
+		if e.IntMode {
+			// values above the enumerated range are outside the harness bound
+			e.assume(e.bLt(abs, e.bigConst(pow2(64*maxW))))
+		}
+		k := e.chooseAmong(conds, "big.Int.Bits length")
+		out := make([]Value, k)
+		for i := 0; i < k; i++ {
+			if e.IntMode {
+				out[i] = e.tt.IntBin(OMod, e.tt.IntBin(ODiv, abs, e.tt.Int(pow2(64*i))), e.tt.Int(pow2(64)))
+			} else {
+				out[i] = e.tt.Extract(64*i+63, 64*i, abs)
+			}
+		}
+		return out
 	})
 	reg("BitLen", func(e *Engine, fr *frame, a []Value) Value {
 		x := e.bigGet(a[0], "BitLen")
